@@ -273,3 +273,52 @@ Theorem flag_parse_error_is_error_l p ne te fs tmpl occs regs c :
 Proof.
   intros Hregs Hst. unfold flag_value, flag_value_with. rewrite Hregs. simpl. now rewrite Hst.
 Qed.
+
+(* ---- registration never shadows: two leaves never share a flag name ---- *)
+Definition named (n : str) : bool := negb (str_eqb n dash).
+
+Lemma str_eqb_sym a b : str_eqb a b = str_eqb b a.
+Proof.
+  destruct (str_eqb a b) eqn:E; destruct (str_eqb b a) eqn:E2; auto.
+  - apply str_eqb_eq in E. subst. now rewrite str_eqb_refl in E2.
+  - apply str_eqb_eq in E2. subst. now rewrite str_eqb_refl in E.
+Qed.
+
+Lemma reg_errors_none p : forall regs seen,
+  reg_errors p seen regs = None ->
+  forallb (fun r => negb (named (rg_name r)) || negb (existsb (str_eqb (rg_name r)) seen)) regs = true /\
+  has_dup (filter named (map rg_name regs)) = false /\
+  (p = PStd -> forallb (fun r => dash_tag p (rg_leaf r) || negb (bad_std_name (rg_name r))) regs = true).
+Proof.
+  induction regs as [|r regs IH]; intros seen H; simpl in *; [auto|].
+  destruct (negb (str_eqb (rg_name r) dash) && existsb (str_eqb (rg_name r)) seen) eqn:E1; [discriminate|].
+  assert (Hhead : negb (named (rg_name r)) || negb (existsb (str_eqb (rg_name r)) seen) = true).
+  { unfold named. destruct (str_eqb (rg_name r) dash); simpl in *; auto. now rewrite E1. }
+  assert (Hrest : reg_errors p (rg_name r :: seen) regs = None /\
+                  (p = PStd -> dash_tag p (rg_leaf r) || negb (bad_std_name (rg_name r)) = true)).
+  { destruct (dash_tag p (rg_leaf r)); [split; auto|].
+    destruct p; simpl in *.
+    - destruct (bad_std_name (rg_name r)); [discriminate|]. split; auto.
+    - split; auto. discriminate. }
+  destruct Hrest as [Hrest Hbad]. destruct (IH _ Hrest) as (Hf & Hd & Hs).
+  rewrite Hhead. simpl. repeat split.
+  - apply forallb_forall. intros x Hx. rewrite forallb_forall in Hf. specialize (Hf x Hx).
+    simpl in Hf. destruct (named (rg_name x)); simpl in *; auto.
+    apply negb_true_iff in Hf. apply orb_false_iff in Hf as [_ Hf]. now rewrite Hf.
+  - destruct (named (rg_name r)) eqn:En; simpl; auto. rewrite Hd, orb_false_r.
+    (* no later named flag has this name *)
+    clear -Hf. induction regs as [|x regs IHr]; simpl in *; auto.
+    apply andb_true_iff in Hf as [Hx Hf]. destruct (named (rg_name x)) eqn:Ex; simpl in *; auto.
+    apply negb_true_iff in Hx. apply orb_false_iff in Hx as [Hx _].
+    rewrite str_eqb_sym, Hx. simpl. auto.
+  - intros Hp. rewrite (Hbad Hp), (Hs Hp). reflexivity.
+Qed.
+
+Theorem flag_registration_never_shadows_l p ne te fs tmpl regs :
+  flag_regs p ne te fs tmpl = Ok regs ->
+  has_dup (filter named (map rg_name regs)) = false /\
+  (p = PStd -> forallb (fun r => dash_tag p (rg_leaf r) || negb (bad_std_name (rg_name r))) regs = true).
+Proof.
+  intros H. apply flag_regs_ok in H as (ls & _ & _ & He).
+  destruct (reg_errors_none p regs [] He) as (_ & Hd & Hs). auto.
+Qed.
